@@ -54,6 +54,11 @@ def build(rq):
     if rq['delay'] == 'mixed':      # a plain discrete delay and a distributed delay in one network
         edges = [('n1/op/x', 'n2/op/u', None, {'weight': 3.0, 'delay': 0.004}),
                  ('n2/op/x', 'n1/op/u', None, {'weight': 1.0, 'delay': 0.004, 'spread': 0.002})]
+    if df == 'edge_template_two_outputs':      # two terminal operators of one edge template declare the same output variable
+        from pyrates import EdgeTemplate
+        e1 = OperatorTemplate('e1', equations=['m = 2.0*r_src'], variables={'m': 'output(0.0)', 'r_src': 'input(0.0)'})
+        e2 = OperatorTemplate('e2', equations=['m = 5.0*r_src'], variables={'m': 'output(0.0)', 'r_src': 'input(0.0)'})
+        edges = [('n1/op/x', 'n2/op/u', EdgeTemplate('et2', operators=[e1, e2]), {'weight': 3.0})]
     if 'sibling_op' in df:          # no edge: the sibling operators stay in one layer of the operator graph on every node
         edges = []
     if rq['delay'] == 'mixed2':     # the distributed delay is processed first
@@ -96,6 +101,8 @@ def job(rq):
                 circ.update_var(node_vars={'n1/op/aa': 1.0})
             if df == 'value_missing_op':
                 kw['node_values'] = {'n1/nop/a': 1.0}
+            if df == 'value_missing_var_second_node':      # a misspelt variable on a node that is not the first of its vectorised group
+                kw['node_values'] = {'n2/op/aa': 1.0}
             if df == 'value_missing_op_all':
                 kw['node_values'] = {'all/nop/a': 1.0}
             if df == 'nodevalue_missing_node':
